@@ -86,6 +86,11 @@ class C10(Prop):
                     p_ = res.kernel.procs[n[1]]
                     if p_.death is None or p_.death >= call["now"] - 1e-6:
                         quiet = False
+            # a worker still registered when the call began although it was already gone
+            for op_ in r["old_pids"]:
+                d_ = res.kernel.procs[op_].death
+                if d_ is not None and d_ <= e["now"] + 1e-6:
+                    quiet = False
             changed = r["prev"]["max_workers"] != kw["max_workers"]
             if quiet and changed and r["started"]:
                 if len(r["pids"]) != kw["max_workers"] or sorted(r["alive"]) != sorted(r["pids"]):
